@@ -13,7 +13,7 @@ ASSUMPTIONS = ["W is reconstructed from (dnl, d, beta, v, r) by its documented d
                "identities are measured relative to the norms of the factors (threshold 1e-9 for random scalings, scaled by the condition of W in converging histories)"]
 REQUIRED_COUNTERS = ["a.compute", "a.update", "a.history>=10", "b.structurally-sparse", "b.structurally-sparse-singular-S", "b.zero-pattern-in-G", "b.ldl", "b.ldl2", "b.chol", "b.chol2", "b.qr", "b.chol2.singular-branch",
                      "b.chol2.refactor", "b.sparse", "b.mnl", "b.H", "b.H-lower-storage", "b.interleaved", "c.W-observed", "c.frame-identity-checked",
-                     "c.conelp", "c.coneqp", "c.cpl", "c.cp", "c.gp", "c.gp-steep", "c.nl.frame-identity-checked"]
+                     "c.conelp", "c.coneqp", "c.cpl", "c.cp", "c.gp", "c.gp-steep", "c.nl.frame-identity-checked", "c.nl.W-observed-right-after-restore", "c.nl.injected-factor-failure-in-relaxed-series.q-block"]
 
 
 def plan(tier):
@@ -465,10 +465,28 @@ def run(ctx):
         F = pr.make_F(log)
         seen = {"n": 0, "frame": 0}
 
+        inject = rng.random() < 0.5
+
         def kkt(x, z, W):
             seen["n"] += 1
             ctx.count("c.W-observed")
             ctx.count("c.nl.W-observed")
+            if inject and not seen.get("injected"):
+                # one-shot failure of the factorization while a series of relaxed line searches is open: cpl restores the
+                # saved state and calls the kktsolver again - with a scaling that must match the restored s, z, lmbda
+                fr_ = sys._getframe(1)
+                dp_ = 0
+                while fr_ is not None and fr_.f_code.co_name != "cpl" and dp_ < 6:
+                    fr_ = fr_.f_back; dp_ += 1
+                if fr_ is not None and fr_.f_code.co_name == "cpl":
+                    ri_ = fr_.f_locals.get("relaxed_iters")
+                    if isinstance(ri_, int) and 0 < ri_ < 8 and fr_.f_locals.get("iters", 0) > 0:
+                        seen["injected"] = seen["n"]
+                        ctx.count("c.nl.injected-factor-failure-in-relaxed-series")
+                        if d.q: ctx.count("c.nl.injected-factor-failure-in-relaxed-series.q-block")
+                        raise ArithmeticError("injected")
+            if seen.get("injected") == seen["n"] - 1:
+                ctx.count("c.nl.W-observed-right-after-restore")
             Wn = cone.npW(W)
             f_, Df_, H_ = F(x, z)
             solve = fac(W, H_, Df_ if entry == "cpl" else Df_[1:, :])
